@@ -73,4 +73,10 @@ func init() {
 		Explanation: "R-ORIGIN (a candidate proposed by the accelerator never becomes the \\G origin: interprocedural taint from the filter result to scan's textstart), R-MODE (producer/consumer agreement on the find-mode record: every field a finder arm reads is assigned before the mode is set; accepted modes have a finder), R-MINLEN (the minimum-length fact is used only as a bound on the remaining length), R-RTLFILTER. " +
 			"Structural conditions for the accelerator to be a pure accelerator. The arithmetic of each finder and the truth of the facts (C04) are NOT decided.",
 	})
+	register(&Prop{
+		ID:    "C05",
+		Rules: []func(*core.Ctx){RDirCtx, RAtomCtx, ROptLoop, RXField},
+		Explanation: "R-DIRCTX (left-to-right-only reasoning about a Multi's first rune is confined to left-to-right context: local dominance by a direction test or a guarded-call-site fixpoint over the static call graph), R-ATOMCTX (ending-backtracking elimination is invoked only from the five contexts nothing can backtrack into), R-OPTLOOP (a loop's child is treated as following content only under M > 0). " +
+			"These are side conditions every rewrite must respect; the substance of the property (class disjointness, nullability, equality with the un-rewritten pattern) is NOT decided.",
+	})
 }
